@@ -16,7 +16,7 @@ import textwrap
 SYNTAX_CTORS = ("_unexpected_token", "UnexpectedToken", "UnexpectedEOF", "GraphQLSyntaxError")
 
 
-def p5(aut, allowed, ast_module):
+def p5(aut, allowed, ast_module, slot_order=None):
     out = []
     for rec in aut.calls:
         cls = getattr(ast_module, rec["cls"], None)
@@ -50,6 +50,15 @@ def p5(aut, allowed, ast_module):
             if rec["loc_ticks"] != rec["ticks"]:
                 why.append("tokens are consumed after loc is evaluated (end of span would not be the last token)")
         out.append({"id": oid + ":span", "holds": ok, "detail": "; ".join(why) or "span = (first token start, last token end)"})
+        order = (slot_order or {}).get(rec["cls"])
+        if order is not None:
+            missing = [k for k in order if k not in rec["kwargs"]]
+            ticks = [(k, rec["kw_ticks"].get(k)) for k in order if rec["kw_ticks"].get(k) is not None]
+            sorted_ok = all(a[1] <= b[1] for a, b in zip(ticks, ticks[1:]))
+            out.append({"id": oid + ":slots", "holds": not missing and sorted_ok,
+                        "detail": "slots %s not passed" % missing if missing else
+                        ("slot values are produced in the order %s, the grammar's is %s" % ([k for k, _t in sorted(ticks, key=lambda x: x[1])], [k for k, _t in ticks])
+                         if not sorted_ok else "every slot is fed, in source order")})
     return out
 
 
